@@ -379,3 +379,15 @@ def _(self, decoder: Obj("Decoder")) -> Str:
     opaque("oer_ld_size", "oer_ld_val", "oer_first")
     ensures(implies(self.number_of_bytes is not None,
                     decoder.number_of_bits == old(decoder.number_of_bits) - 8 * self.number_of_bytes))
+
+
+@contract("ArrayType.encode", props=["C06", "C01", "C12"], for_class="any")
+def _(self, data: ValSeq, encoder: Obj("Encoder")):
+    refines("Type.encode")
+    # X.696 17: the number of elements as a length-prefixed unsigned integer, then the elements in order
+    ghost_init(g_hdr=0)
+    at_stmt("@loop0", set=dict(g_hdr=encoder.number_of_bits))
+    ensures(g_hdr > old(encoder.number_of_bits) and (g_hdr - old(encoder.number_of_bits)) % 8 == 0)
+    loop(0, invariant=[encoder.number_of_bits >= g_hdr, g_hdr > old(encoder.number_of_bits),
+                       (g_hdr - old(encoder.number_of_bits)) % 8 == 0,
+                       implies(old(encoder.number_of_bits) % 8 == 0, encoder.number_of_bits % 8 == 0)])
